@@ -48,6 +48,8 @@ func init() {
 			{ID: "C11-R22", Title: "a refused invocation writes nothing to the VM (shared with C06-R22)", Floor: 8, Run: refusedInvocationsWriteNothing},
 			{ID: "C11-R23", Title: "options that are refused are rolled back (shared with C07-R31)", Floor: 3, Run: refusedOptionsAreRolledBack},
 			{ID: "C11-R24", Title: "a Config is applied to the VM as a whole", Floor: 3, Run: theConfigurationIsAppliedAsAWhole},
+			{ID: "C11-R25", Title: "a configuration edits only modules it owns", Floor: 1, Run: aConfigurationEditsOnlyModulesItOwns},
+			{ID: "C11-R26", Title: "mutex-guarded VM maps are copied, not aliased, into another VM (shared with C09-R5)", Floor: 2, Run: c09r5},
 		},
 	})
 }
@@ -72,6 +74,25 @@ func c11r1(c *core.Ctx) {
 		}
 		return true
 	})
+	// ... and the helpers of those helpers (the init phase as a whole)
+	for changed := true; changed; {
+		changed = false
+		for f := range calledFromInit {
+			d := p.Decl(f)
+			if d == nil || d.Body == nil {
+				continue
+			}
+			ast.Inspect(d.Body, func(n ast.Node) bool {
+				if ce, ok := n.(*ast.CallExpr); ok {
+					if cal := calleeOf(info, ce); cal != nil && core.RecvNamed(cal) == cfgT && cal != initM && !calledFromInit[cal] {
+						calledFromInit[cal] = true
+						changed = true
+					}
+				}
+				return true
+			})
+		}
+	}
 	n := 0
 	for _, m := range core.Methods(cfgT) {
 		fd := p.Decl(m)
@@ -95,7 +116,7 @@ func c11r1(c *core.Ctx) {
 			// must not be called from anywhere else
 			others := 0
 			funcBodies(root, func(fn *types.Func, d *ast.FuncDecl) {
-				if fn == initM {
+				if fn == initM || calledFromInit[fn] {
 					return
 				}
 				ast.Inspect(d.Body, func(k ast.Node) bool {
